@@ -816,6 +816,7 @@ def _shape(text: str) -> str:
 
 
 def run(run: Run):
+    from .common import cached_guard as _cached_guard
     src = get_source()
     g = get_grammar(src)
     em = get_emission(src)
@@ -836,12 +837,12 @@ def run(run: Run):
         ('ControlConstructionTokenTranslator.translate', 'TypeError') not in reached
     dead_ok[('SumIfControlConstructionTokenTranslator.translate', 'ValueError')] = \
         ('SumIfControlConstructionTokenTranslator.translate', 'ValueError') not in reached
-    run.guard('C06.R1', r1, run, src, cg, em, dead_ok)
-    run.guard('C06.R3', r3, run, src)
-    run.guard('C06.R6', r6, run, src, rt)
-    run.guard('C06.R7', r7, run, src, g)
-    run.guard('C06.R8', r8, run, src)
-    run.guard('C06.R9', r9, run, src, em)
+    _cached_guard(run, 'C06.R1', r1, src, cg, em, dead_ok)
+    _cached_guard(run, 'C06.R3', r3, src)
+    _cached_guard(run, 'C06.R6', r6, src, rt)
+    _cached_guard(run, 'C06.R7', r7, src, g)
+    _cached_guard(run, 'C06.R8', r8, src)
+    _cached_guard(run, 'C06.R9', r9, src, em)
     # "defines the class with the workbook's titles and sizes": the three per-sheet lists are index-aligned (shared with C18.R2)
     from .common import borrow
     from . import c18
@@ -849,9 +850,9 @@ def run(run: Run):
     borrow(run, 'C06.R10', c18.r2_any, src)
     from .common import check_per_instance_state
     run.rule('C06.R11', 'titles / sizes / overrides of the generated class are per instance')
-    run.guard('C06.R11', check_per_instance_state, run, 'C06.R11', get_runtime(get_source()))
+    _cached_guard(run, 'C06.R11', check_per_instance_state, 'C06.R11', get_runtime(get_source()))
     run.rule('C06.R12', 'a translator result that may be a number only reaches consumers that format it')
-    run.guard('C06.R12', r12_results_are_text, run, src, g, em)
+    _cached_guard(run, 'C06.R12', r12_results_are_text, src, g, em)
     run.floor('C06.R12', 3)
     from .common import borrow as _borrow13
     from . import c09 as _c09
@@ -863,14 +864,14 @@ def run(run: Run):
     from . import pipeline_eval as _pe6
     run.rule('C06.R15', 'the class generated for a workbook of awkward titles and texts is Python and reports the titles of the workbook '
                         '(shared with C07.R9)')
-    run.guard('C06.R15', _pe6.hostile_obligations, run, 'C06.R15', src, g)
+    _cached_guard(run, 'C06.R15', _pe6.hostile_obligations, 'C06.R15', src, g)
     run.floor('C06.R15', 40)
     run.rule('C06.R16', 'formulas that cannot be translated end in a library exception, end to end by evaluation (references without a row, '
                         'unknown sheets, truncated and over-long argument lists)')
-    run.guard('C06.R16', _pe6.reject_obligations, run, 'C06.R16', src, g)
+    _cached_guard(run, 'C06.R16', _pe6.reject_obligations, 'C06.R16', src, g)
     run.floor('C06.R16', 10)
     run.rule('C06.R14', 'a formula that does not fit the grammar is rejected with the parser exception wherever it ends (shared with C05.R2)')
-    run.guard('C06.R14', _lx.parser_obligations, run, 'C06.R14', src, g, _lx.PARSE_PROBES[20:])
+    _cached_guard(run, 'C06.R14', _lx.parser_obligations, 'C06.R14', src, g, _lx.PARSE_PROBES[20:])
     run.floor('C06.R14', 10)
     run.floor('C06.R11', 6)
     run.floor('C06.R10', 2)
